@@ -720,6 +720,18 @@ func runCase(oc *fw.Outcome, c scase) {
 				oc.Violate("cache:"+class+"/cached", "the branch taken (after the last restart) is not the hit branch but `cached` is true", detail())
 			}
 			oc.Tag("branch:miss-or-pass")
+		case -1:
+			// no lookup in the pass that produced the response (recv -> error, possibly after a restart out of
+			// a hit): neither report may claim the hit branch
+			if !exp.ambiguous {
+				if xc == "HIT" {
+					oc.Violate("cache:"+class+"/x-cache-stale", fmt.Sprintf("no lookup in the final pass (flow %s) but X-Cache is %q", strings.Join(flow, ">"), xc), detail())
+				}
+				if rp.Cached {
+					oc.Violate("cache:"+class+"/cached-stale", "no lookup in the final pass but `cached` is true", detail())
+				}
+				oc.Tag("branch:no-lookup-in-final-pass")
+			}
 		}
 		recvEntries += count(exp.flow, "recv")
 		if c.Rate {
